@@ -146,6 +146,12 @@ func main() {
 		r.Finish("toolchain failure")
 		return
 	}
+	if r.Mode == "exprtree" { // debugging aid: only the nested-expression probes
+		exprTreeCheck(r, tc)
+		tc.cleanup()
+		r.Finish("nested-expression probes only")
+		return
+	}
 	if os.Getenv("C04_KEEP") == "" {
 		defer tc.cleanup()
 	} else {
@@ -153,6 +159,7 @@ func main() {
 	}
 
 	shapeCheck(r, tc)
+	exprTreeCheck(r, tc)
 	iterateCheck(r, tc)
 	iterateJumpCheck(r, tc)
 	runExec(r, tc)
